@@ -369,6 +369,8 @@ def r09_12(ctx):
 def run(ctx):
     from .sweep import r09_13 as _r09_13
     _r09_13(ctx)
+    from .sweep import r09_14 as _r09_14
+    _r09_14(ctx)
     # the consumed-results counter of a new worker starts at zero: Value('i') has no initialiser, the zero fill of
     # RawValue is all there is (borrowed from C15) -- heap blocks are recycled
     from .c15 import r15_1 as _r15_1b
@@ -420,6 +422,7 @@ def run(ctx):
 
 _P = 'billiard/pool.py'
 MUTANTS = [
+    ('shrink-ends-one-worker-too-many', 'billiard/pool.py', '            if i >= n - 1:\n                break', '            if i > n - 1:\n                break', 'R09.14'),
     ('supervisor-does-not-maintain', 'billiard/pool.py', '            while self._state == RUN and pool._state == RUN:\n                pool._maintain_pool()\n                time.sleep(0.8)\n', '            while self._state == RUN and pool._state == RUN:\n                time.sleep(0.8)\n', 'R09.13'),
     ('counter-handed-on-to-the-next-worker-of-the-slot', _P, "        on_ready_counter = self._ctx.Value('i')\n", "        on_ready_counter = self._on_ready_counters.get(i) or self._ctx.Value('i')\n", 'R09.12'),
     ('reaper-skips-workers-whose-sentinel-is-quiet', _P, "            worker = self._pool[i]\n            exitcode = worker.exitcode\n", "            worker = self._pool[i]\n            if worker._popen is not None and not worker._popen.sentinel:\n                continue\n            exitcode = worker.exitcode\n", 'R19.11'),
